@@ -1,9 +1,13 @@
 package main
 
 import (
+	"bytes"
+	"compress/gzip"
 	"encoding/json"
 	"errors"
 	"fmt"
+	"net/http"
+	"net/http/httptest"
 	"sort"
 	"strings"
 	"sync/atomic"
@@ -17,6 +21,7 @@ import (
 	"github.com/trustbloc/sidetree-core-go/pkg/dochandler"
 	"github.com/trustbloc/sidetree-core-go/pkg/observer"
 	"github.com/trustbloc/sidetree-core-go/pkg/processor"
+	restdoc "github.com/trustbloc/sidetree-core-go/pkg/restapi/dochandler"
 	"github.com/trustbloc/sidetree-core-go/pkg/versions/1_0/txnprocessor"
 
 	"verifharness/hx"
@@ -111,7 +116,7 @@ func checkC15(c *hx.Ctx) {
 				t.CanonicalReference, t.EquivalentReferences = "", nil
 			}
 			pl := &txnPlan{Txn: t}
-			kind := hx.Pick(r, []string{"valid", "valid", "valid", "dup", "dup-in-files", "malformed-anchor", "missing-file", "corrupt-file", "unknown-namespace", "unknown-version"})
+			kind := hx.Pick(r, []string{"valid", "valid", "valid", "dup", "dup-in-files", "malformed-core-index", "malformed-anchor", "missing-file", "corrupt-file", "unknown-namespace", "unknown-version"})
 			pl.Kind = kind
 			// a batch of 1-5 operations on distinct DIDs
 			var batch []*batchOp
@@ -134,6 +139,13 @@ func checkC15(c *hx.Ctx) {
 				continue
 			}
 			switch kind {
+			case "malformed-core-index":
+				body := hx.Pick(r, []string{`{"operations":{"create":[{"suffixData":null}]}}`, `{"operations":{"create":[{}]}}`, `{"operations":{"create":[null]}}`,
+					`{"operations":{"recover":[null],"deactivate":[{}]},"coreProofFileUri":"x"}`, `{"operations":null,"provisionalIndexFileUri":null}`, `null`, `{"operations":{"create":{}}}`})
+				uri := fmt.Sprintf("malformed-core-index-%d-%d", si, k)
+				cas.M[uri] = gz([]byte(body), gzip.DefaultCompression)
+				pl.Txn.AnchorString = "1." + uri
+				pl.Expect = nil
 			case "dup-in-files":
 				// hand-made batch files (read by the REAL provider) whose provisional index lists one DID twice: the whole
 				// transaction is malformed and contributes nothing
@@ -342,7 +354,13 @@ func checkC15(c *hx.Ctx) {
 					return nil
 				}
 			}
-			v1 := hx.NewVersion(p, hx.VersionOpts{CAS: runCAS, Store: store, TxnProcOpts: []txnprocessor.Option{txnprocessor.WithUnpublishedOperationStore(unpub, []operation.Type{operation.TypeUpdate, operation.TypeCreate})}})
+			tpOpts := []txnprocessor.Option{txnprocessor.WithUnpublishedOperationStore(unpub, []operation.Type{operation.TypeUpdate, operation.TypeCreate})}
+			v1 := hx.NewVersion(p, hx.VersionOpts{CAS: runCAS, Store: store, TxnProcOpts: tpOpts})
+			// a panic while reading a transaction would kill the observer goroutine (and this process): catch it at the provider
+			// boundary, report it, and let the run go on
+			v1.TxnProc = txnprocessor.New(&txnprocessor.Providers{OpStore: store, OperationProtocolProvider: &safeProvider{inner: v1.Provider, onPanic: func(anchor string, r interface{}) {
+				c.Violation(fmt.Sprintf("C15 reading the batch files of a transaction panicked (the observer goroutine would die and process nothing any more): %v", r), map[string]interface{}{"anchor": anchor, "panic": fmt.Sprint(r)})
+			}}}, tpOpts...)
 			v2 := hx.NewVersion(p2, hx.VersionOpts{CAS: runCAS})
 			v2.TxnProc = txnprocessor.New(&txnprocessor.Providers{OpStore: store, OperationProtocolProvider: stub})
 			// wrap processors to learn which transaction a Put belongs to
@@ -597,8 +615,20 @@ func checkC15(c *hx.Ctx) {
 			dh := dochandler.New(hx.Namespace, nil, pc, w, processor.New("verif", store, pc), hx.NopMetrics{}, dochandler.WithUnpublishedOperationStore(unpub, allOpTypes))
 			var wantReqs []string
 			putAttempts, addAttempts := 0, 0
+			rest := restdoc.NewUpdateHandler(dh, pc, hx.NopMetrics{})
 			for _, s := range steps {
-				_, err := dh.ProcessOperation(s.req, p.GenesisTime)
+				var err error
+				if si%2 == 1 {
+					// through the REST front end: what is queued and stored must stay the bytes the client sent, whatever later
+					// (accepted or refused) requests do to the handler's buffers
+					rw := httptest.NewRecorder()
+					rest.Update(rw, httptest.NewRequest(http.MethodPost, "/operations", bytes.NewReader(append([]byte{}, s.req...))))
+					if rw.Code != http.StatusOK {
+						err = fmt.Errorf("http %d", rw.Code)
+					}
+				} else {
+					_, err = dh.ProcessOperation(s.req, p.GenesisTime)
+				}
 				expectOK := s.ok
 				if s.ok {
 					putAttempts++
@@ -690,6 +720,7 @@ func checkC15(c *hx.Ctx) {
 	c.Floor("runs:store-put", 20)
 	c.Floor("txn_kind:dup", 10)
 	c.Floor("txn_kind:dup-in-files", 5)
+	c.Floor("txn_kind:malformed-core-index", 5)
 	c.Floor("txn_kind:valid", 50)
 	c.Floor("intake_runs:unpublished-put-fails", 50)
 	c.Floor("intake_runs:writer-add-fails", 50)
@@ -739,4 +770,20 @@ func summarizePuts(puts [][]*operation.AnchoredOperation) []string {
 
 func stepKinds(steps interface{}) interface{} {
 	return fmt.Sprintf("%v", steps)
+}
+
+// safeProvider turns a panic of the real operation provider into an error (after reporting it).
+type safeProvider struct {
+	inner   protocol.OperationProvider
+	onPanic func(anchor string, r interface{})
+}
+
+func (p *safeProvider) GetTxnOperations(t *txn.SidetreeTxn) (ops []*operation.AnchoredOperation, err error) {
+	defer func() {
+		if r := recover(); r != nil {
+			p.onPanic(t.AnchorString, r)
+			ops, err = nil, fmt.Errorf("panic: %v", r)
+		}
+	}()
+	return p.inner.GetTxnOperations(t)
 }
